@@ -170,10 +170,11 @@ func TestC15(t *testing.T) {
 		thoroughExtremes()
 	}
 	bigImages()
+	banners()
 	ev.RapidChecks(ev.Pick(6000, 300000))
 	ev.RapidSeed(15)
 	rapid.Check(t, func(rt *rapid.T) {
-		s := img.Gen(rt, "src", img.GenOpts{AllowWrap: true, TallRows: 40})
+		s := img.Gen(rt, "src", img.GenOpts{AllowWrap: true, TallRows: 40, Wide: 6000})
 		c := Case{Src: s, Helper: rapid.SampledFrom([]string{"NRGBA", "RGBA", "RGBA64"}).Draw(rt, "helper")}
 		c.Par = genPar(rt, s.Rect[3]-s.Rect[1])
 		ev.Eval(1)
@@ -404,3 +405,53 @@ func bigImages() {
 }
 
 var origProcs = runtime.GOMAXPROCS(0)
+
+// banners: few rows, many columns.  Row-partitioned loops are only one way to split the work; a helper may split a
+// wide image by columns or blocks once it has fewer rows than workers, and may move data in fixed-size runs.  Every
+// source type x helper, widths at and around powers of two up to 16385 (and one seeded width), 1..3 rows,
+// parallelism below, at and above the row count, zero and non-zero x origins, sub-images of a wider parent.
+func banners() {
+	x := ev.Seed()*0x9E3779B97F4A7C15 + 77
+	next := func(n int) int {
+		x ^= x << 13
+		x ^= x >> 7
+		x ^= x << 17
+		return int(x>>33) % n
+	}
+	widths := []int{64, 129, 192, 260, 513, 1025, 2049, 4097, 8193, 16385, 71 + next(20000)}
+	pars := []int{2, 3, 4, 5, 8, 16, 33, 1}
+	xs := []int{40, 2, 0, 63, 300}
+	bad := map[string]bool{}
+	var n int64
+	for _, typ := range img.Types {
+		for _, helper := range []string{"NRGBA", "RGBA", "RGBA64"} {
+			for _, w := range widths {
+				for k := 0; k < ev.Pick(3, 24); k++ {
+					h, par, x0 := 1+next(3), pars[next(len(pars))], xs[next(len(xs))]
+					if ev.Thorough() {
+						par = pars[k%len(pars)]
+					}
+					y0 := next(3)
+					s := img.Spec{Type: typ, Ratio: next(6), Rect: [4]int{x0, y0, x0 + w, y0 + h}, Parent: [4]int{x0, y0, x0 + w, y0 + h}, Fill: "prng", Seed: ev.Seed() + uint64(n), PalN: 255}
+					if next(2) == 0 {
+						ml := 2
+						if ml > x0 {
+							ml = x0
+						}
+						s.Parent = [4]int{x0 - ml, y0, x0 + w + 3, y0 + h + 1}
+					}
+					c := Case{Src: s, Helper: helper, Par: par}
+					n++
+					kd, wh, _ := check(c)
+					if kd != "" && !bad[helper+kd] {
+						bad[helper+kd] = true
+						ev.Violation("convert", c.Helper+"/"+kd, wh, c)
+					}
+				}
+			}
+		}
+	}
+	ev.Eval(n)
+	ev.NTAdd(n)
+	ev.Class("banners", n)
+}
